@@ -98,6 +98,8 @@ impl QueuingExecutor {
 
         while did_some_work {
             did_some_work = false;
+            #[cfg(crux_verif)]
+            crate::verif::point("ex_spawn");
             while let Ok(task) = self.spawn_queue.try_recv() {
                 let task_id = self
                     .tasks
@@ -107,7 +109,11 @@ impl QueuingExecutor {
                 self.run_task(TaskId(task_id.try_into().expect("TaskId overflow")));
                 did_some_work = true;
             }
+            #[cfg(crux_verif)]
+            crate::verif::point("ex_ready");
             while let Ok(task_id) = self.ready_queue.try_recv() {
+                #[cfg(crux_verif)]
+                crate::verif::point("ex_run");
                 match self.run_task(task_id) {
                     RunTask::Unavailable => {
                         // We were unable to run the task as it is (presumably) being run on
@@ -145,6 +151,9 @@ impl QueuingExecutor {
         // free the mutex so other threads can make progress
         drop(lock);
 
+        #[cfg(crux_verif)]
+        crate::verif::point("ex_poll");
+
         let waker = Arc::new(TaskWaker {
             task_id,
             sender: self.ready_sender.clone(),
@@ -154,6 +163,8 @@ impl QueuingExecutor {
 
         // poll the task
         if task.as_mut().poll(context).is_pending() {
+            #[cfg(crux_verif)]
+            crate::verif::point("ex_putback");
             // If it's still pending, put the future back in the slot
             self.tasks
                 .lock()
@@ -164,6 +175,8 @@ impl QueuingExecutor {
             RunTask::Suspended
         } else {
             // otherwise the future is completed and we can free the slot
+            #[cfg(crux_verif)]
+            crate::verif::point("ex_remove");
             self.tasks.lock().unwrap().remove(*task_id as usize);
             RunTask::Completed
         }
